@@ -184,6 +184,19 @@ func (uconn *UConn) uLoadSession() error {
 		if session == nil || err != nil {
 			return err
 		}
+		if session.version != VersionTLS13 && session.extMasterSecret {
+			// A session established with extended_master_secret must not be offered
+			// by a hello that lacks that extension: RFC 7627 makes the server abort.
+			hasEMS := false
+			for _, ext := range uconn.Extensions {
+				if _, ok := ext.(*ExtendedMasterSecretExtension); ok {
+					hasEMS = true
+				}
+			}
+			if !hasEMS {
+				return nil
+			}
+		}
 		if session.version == VersionTLS12 {
 			// We use the session ticket extension for tls 1.2 session resumption
 			uconn.sessionController.initSessionTicketExt(session, hello.sessionTicket)
